@@ -286,6 +286,30 @@ def gen(tier: str, seed: int) -> list[Case]:
         files, info = c09.build_pair_package(rng, gated)
         files["src/pk/deep.py"] = deep_nesting_module(rng)
         cases.append(Case(cid=f"c02-struct-{i}", files=files, opts=["-nc"] if i % 2 else [], meta={"part": "structure", "feats": {"structure-packages": 1}}, reach=REACH))
+    # (vi) whole packages, each generated TWICE into the same output directory (the files of the second run are parsed):
+    # every declaration form of C01's library, its package scenarios (names defined in another module, import forms,
+    # encodings), general packages with re-exports and classes of other libraries
+    from .. import pkggen as pg
+    from ..scenarios import PACKAGE_SCENARIOS
+    from . import c01, c10
+
+    for i in range(2 if tier == "quick" else 40):
+        ks = c01.kitchen_sink(rng_for(seed, PID, "kitchen-sink", i), gated, 70 + i)
+        cases.append(Case(cid=f"c02-kitchen-{i}", files=ks, opts=[[], ["-nc", "--docstyle", "numpydoc"], ["--docstyle", "google"], ["-nc"]][i % 4], repeat=1 + i % 2, meta={"part": "whole-packages", "feats": {"kitchen-sink": 1}}, reach=REACH))
+    for k, (feat, sfiles, optsets) in enumerate(PACKAGE_SCENARIOS):
+        if feat in gated or feat.startswith("doc:hostile") or feat == "file:stub-and-namespace":
+            # not in this property's quantifier: file names that are no module names; docstring fields that are no
+            # types / literals (what the tool copies from them is the recorded finding KF-C02-docstring-default-verbatim)
+            continue
+        files = {"src/" + fk: ({"hex": fv.hex()} if isinstance(fv, bytes) else fv) for fk, fv in sfiles.items()}
+        for oi, opts in enumerate(optsets if tier == "thorough" else optsets[:2]):
+            cases.append(Case(cid=f"c02-scenario-{feat}-{oi}", files=files, opts=list(opts), repeat=1 + (k + oi) % 2, meta={"part": "whole-packages", "feats": {"scenario:" + feat: 1}}, reach=REACH))
+    cfg = c10.make_cfg(gated)
+    rng3 = rng_for(seed, PID, "general-packages")
+    for i in range(4 if tier == "quick" else 120):
+        cfg.local_foreign_lower = i % 2 == 0
+        pkg = pg.random_pkg(rng3, cfg)
+        cases.append(Case(cid=f"c02-general-{i}", files=pg.render(pkg), opts=["-nc"] if i % 2 else [], repeat=2, meta={"part": "whole-packages", "feats": {"general-package": 1}}, reach=REACH))
     terms = c05.depth2_terms()
     rng.shuffle(terms)
     items = [(t, pos) for t in terms[: 250 if tier == "quick" else 1200] for pos in ("param", "result", "cattr") if not (c05.features(t, pos) & gated) and not (pos == "result" and t[0] == "None")]
